@@ -10,6 +10,17 @@
 // undisturbed iterator of the same configuration: N, M, the degree sequence and the edge array
 // must all be equal.  k ranges over 0..len+2 (before the first graph, after each, after Next
 // has answered false once and twice).
+//
+// A second kind of case, `S n a m predicate placement k|<dump>`, ties the Coq model of Save and
+// Load (coq/Search/Model.v: save, load; coq/Search/SaveModel.v: inv) to the code: <dump> is the
+// complete state of the iterator at position k as copied by the hook search.VerifDump (all
+// unexported fields, including the hidden parts of the backing arrays of the graph).  The
+// worker rebuilds that state (and reports a difference from the dump in the case line: the
+// search must be deterministic), saves, loads, and prints the dump of the loaded iterator; the
+// driver of the extracted model computes load (save s) from the dump and prints the same.  The
+// saved projection and the projection clauses of the between-calls invariant are compared as
+// the property's part, the hidden arrays / cache / ViableBits of the loaded iterator and the
+// hidden clauses of the invariant as implementation detail (strict part).
 package main
 
 import (
@@ -166,6 +177,9 @@ func exec(line string) hx.Result {
 }
 
 func exec1(line string) hx.Result {
+	if strings.HasPrefix(line, "S ") {
+		return execState(line)
+	}
 	c, mode, chain := parse(line)
 	ref := reference(c)
 	L := len(ref)
@@ -255,11 +269,115 @@ func exec1(line string) hx.Result {
 	}
 	res.Buckets = []string{fmt.Sprintf("n=%d", c.n), fmt.Sprintf("m=%d", c.m), "pred=" + c.pred + "/" + c.placement, "pos=" + pos, fmt.Sprintf("chain=%d", len(chain)), fmt.Sprintf("mode=%d", mode)}
 	if len(r.viol) == 0 {
-		res.Obs = fmt.Sprintf("ok ## len=%d iterators=%d", L, len(tracks))
+		res.Obs = "ok"
 	} else {
-		res.Obs = fmt.Sprintf("differs ## len=%d iterators=%d", L, len(tracks))
+		res.Obs = "differs"
 	}
+	res.Buckets = append(res.Buckets, fmt.Sprintf("iterators=%d", len(tracks)))
 	return res
+}
+
+func joinInts[T int | byte](l []T) string {
+	parts := make([]string, len(l))
+	for i, x := range l {
+		parts[i] = strconv.FormatUint(uint64(x), 10)
+		if int64(x) < 0 {
+			// only ints can be negative (orbit entries); uints print through FormatUint
+			parts[i] = strconv.FormatInt(int64(x), 10)
+		}
+	}
+	return strings.Join(parts, ",")
+}
+
+func joinUints(l []uint) string {
+	parts := make([]string, len(l))
+	for i, x := range l {
+		parts[i] = strconv.FormatUint(uint64(x), 10)
+	}
+	return strings.Join(parts, ",")
+}
+
+func b01(b bool) string {
+	if b {
+		return "1"
+	}
+	return "0"
+}
+
+// dumpProj / dumpHidden print a VerifState in the syntax shared with ocaml/c04/driver.ml.
+func dumpProj(v search.VerifState) string {
+	return fmt.Sprintf("N=%d A=%d M=%d F=%s NV=%d NE=%d D=%s E=%s CH=%s PA=%s", v.N, v.A, v.M, b01(v.First),
+		v.NV, v.NE, joinInts(v.Deg), joinInts(v.Edg), joinUints(v.Choices), joinInts(v.CurrentPath))
+}
+
+func dumpHidden(v search.VerifState) string {
+	perm := "nil"
+	if !v.PermNil {
+		perm = joinInts(v.Perm)
+	}
+	gens := make([]string, len(v.Generators))
+	for i, g := range v.Generators {
+		gens[i] = joinInts(g)
+	}
+	return fmt.Sprintf("DT=%s ET=%s P=%s O=%s G=%s VB=%d", joinInts(v.DegTail), joinInts(v.EdgTail), perm,
+		joinInts(v.Orbits), strings.Join(gens, "/"), v.ViableBits)
+}
+
+func dumpFull(v search.VerifState) string { return dumpProj(v) + " " + dumpHidden(v) }
+
+func execState(line string) hx.Result {
+	head, dump, _ := strings.Cut(line, "|")
+	f := strings.Fields(head)
+	var c config
+	c.n, _ = strconv.Atoi(f[1])
+	c.a, _ = strconv.Atoi(f[2])
+	c.m, _ = strconv.Atoi(f[3])
+	c.pred, c.placement = f[4], f[5]
+	k, _ := strconv.Atoi(f[6])
+	it := c.fresh()
+	yielded := 0
+	for i := 0; i < k; i++ {
+		if it.Next() {
+			yielded++
+		}
+	}
+	var res hx.Result
+	st := search.VerifDump(it)
+	if got := dumpFull(st); got != dump {
+		res.Viol = append(res.Viol, hx.Fail("C04:nondeterministic", "the state after %d calls of Next is [%s]; when the case was generated it was [%s]", k, got, dump))
+	}
+	loaded := c.load(save(it))
+	after := search.VerifDump(it)
+	if got := dumpFull(after); got != dump {
+		res.Viol = append(res.Viol, hx.Fail("C04:save-disturbs", "Save changed the state of the iterator: before [%s], after [%s]", dump, got))
+	}
+	ld := search.VerifDump(loaded)
+	res.Obs = dumpProj(ld) + " inv=1 ## " + dumpHidden(ld) + " hid=1"
+	res.Nontrivial = st.NV > 0 && len(st.Choices) > 0
+	pos := "mid"
+	switch {
+	case k == 0:
+		pos = "before-first"
+	case yielded < k:
+		pos = "after-exhaustion"
+	}
+	res.Buckets = []string{"kind=state", fmt.Sprintf("n=%d", c.n), "pos=" + pos, fmt.Sprintf("stack=%d", len(st.Choices)/8*8), fmt.Sprintf("cached=%v", !st.PermNil)}
+	return res
+}
+
+// stateCases emits one state case per position 0..len+2 (every step-th position) of c.
+func stateCases(g *hx.Gen, c config, step int) {
+	defer func() { recover() }() // a panic of the code under test is reported by the behaviour cases
+	it := c.fresh()
+	falses := 0
+	for k := 0; falses < 3 && k < 400000; k++ {
+		if k%step == 0 || falses > 0 {
+			g.Emit(fmt.Sprintf("S %s %d|%s", c.String(), k, dumpFull(search.VerifDump(it))))
+		}
+		if !it.Next() {
+			falses++
+		}
+	}
 }
 
 // outputLen is used by the generator only, to enumerate the save positions of a configuration.
@@ -328,6 +446,17 @@ func gen(g *hx.Gen) {
 		}
 	}
 	g.Exhaustive(fmt.Sprintf("every save position k in 0..len+2 of every configuration (n<=%d, m<=3, all a, predicate in none+%v as pre/post)", full, gx.Preds))
+	// the states themselves: model of Save / Load and the between-calls invariant against /repo
+	for n := 0; n <= full; n++ {
+		step := 1
+		if n >= 7 {
+			step = 5
+		}
+		for _, c := range configs(n, []int{1, 2, 3}, gx.Preds) {
+			stateCases(g, c, step)
+		}
+	}
+	g.Exhaustive(fmt.Sprintf("Load(Save(.)) on the complete iterator state at every position of every configuration n<=6 (every 5th for n=7), m<=3, against the extracted model (n<=%d in this tier)", full))
 	// sampled positions for the larger sizes, other moduli, and longer chains
 	type plan struct {
 		n     int
@@ -386,7 +515,7 @@ var _ = graph.NewDense
 
 func main() {
 	hx.Main(hx.Prop{
-		Rule:        "case = (n,a,m,predicate,placement) x save position k x chain of further (advance, save, load) links x interleaving mode; non-trivial = the remaining output at the first save position is non-empty (k < len); distinct by case text",
+		Rule:        "behaviour case = (n,a,m,predicate,placement) x save position k x chain of further (advance, save, load) links x interleaving mode; non-trivial = the remaining output at the first save position is non-empty (k < len). state case = (configuration, position k, complete iterator state); non-trivial = the graph is non-empty and the DFS stack is non-empty. distinct by case text",
 		Gen:         gen,
 		Exec:        exec,
 		CaseTimeout: 5 * time.Minute,
